@@ -27,6 +27,9 @@ pub enum Want {
     Run,
     Lock(usize),
     CvWait(usize),
+    /// In a timed wait: may run (the time-out fires), but only when nobody else can -- simulated time advances only
+    /// when every other thread is blocked.
+    Sleeping,
     Finished,
 }
 
@@ -175,6 +178,7 @@ impl Sched {
             Want::Run => true,
             Want::Lock(m) => !g.owners.contains_key(m),
             Want::CvWait(_) => false,
+            Want::Sleeping => true,
             Want::Finished => false,
         }
     }
@@ -185,6 +189,7 @@ impl Sched {
             match &t.want {
                 Want::Finished => {}
                 Want::Run => parts.push(format!("{}:runnable", t.name)),
+                Want::Sleeping => parts.push(format!("{}:timed_wait", t.name)),
                 Want::Lock(m) => {
                     let owner = g.owners.get(m).map(|o| g.threads[*o].name.clone()).unwrap_or_default();
                     parts.push(format!(
@@ -236,6 +241,10 @@ impl Sched {
         }
         let n = g.threads.len();
         let mut en: Vec<usize> = (0..n).filter(|i| Self::enabled(g, *i)).collect();
+        // timed waits only fire when nothing else can run
+        if en.iter().any(|i| g.threads[*i].want != Want::Sleeping) {
+            en.retain(|i| g.threads[*i].want != Want::Sleeping);
+        }
         if en.is_empty() && g.spurious_wakeups {
             // a condvar waiter may wake up spuriously (legal for std::sync::Condvar)
             en = (0..n).filter(|i| matches!(g.threads[*i].want, Want::CvWait(_))).collect();
@@ -378,6 +387,15 @@ impl teos_common::verif::SyncHooks for Sched {
         if Sched::managed() {
             self.yield_point(Want::CvWait(cv_id));
         }
+    }
+
+    fn cv_wait_timeout(&self, _cv_id: usize, _mutex_id: usize) -> bool {
+        // A timed wait can always return: it is a plain scheduling point that reports a time-out (the caller re-checks
+        // its predicate, as with any condition variable).
+        if Sched::managed() {
+            self.yield_point(Want::Sleeping);
+        }
+        true
     }
 
     fn cv_notify(&self, cv_id: usize) {
